@@ -692,7 +692,7 @@ impl Prop for C14 {
         }
     }
     fn nontrivial_rule(&self) -> &'static str {
-        "one run = a ReconnectService (unlimited attempts) or a Retry (max_attempts = attempts+1) in front of a backend that is dead for 20..10^4 attempts, with initial interval 0..1 day, multiplier 1..10, cap absent / below the initial interval / seconds..30 days, randomization 0..1 (seeded jitter hook); the paused clock auto-advances through up to 30 virtual years; every observed inter-attempt delay is compared with the formula, the cap, monotonicity and the jitter band. Non-trivial: at least 10 attempts were made. Distinct = distinct event-log digest. Supplement (not simulation): direct calls of next_interval/delay_for_attempt for attempt numbers no run reaches."
+        "one run = a ReconnectService (unlimited attempts) or a Retry (max_attempts = attempts+1) in front of a backend that is dead for 20..10^4 attempts, with initial interval 0..1 day, multiplier 1..10, cap absent / Duration::MAX / below the initial interval / seconds..30 days, randomization 0..1 (seeded jitter hook); the paused clock auto-advances through up to 30 virtual years; every observed inter-attempt delay is compared with the formula, the cap, monotonicity and the jitter band. Non-trivial: at least 10 attempts were made. Distinct = distinct event-log digest. Supplement (not simulation): direct calls of next_interval/delay_for_attempt for attempt numbers no run reaches."
     }
     fn real_components(&self) -> Vec<&'static str> {
         vec!["tower-resilience-retry backoff.rs (ExponentialBackoff, ExponentialRandomBackoff with seeded jitter hook, FixedInterval), Retry loop", "tower-resilience-reconnect ReconnectPolicy constructors and ReconnectFuture loop", "tokio timer wheel on the paused clock (years of virtual time)"]
